@@ -24,6 +24,7 @@ from pyvc.symex import FuncRef
 OG, CT, PEN, UNI = "c14_OGlyph", "c14_Contour", "c14_Pen", "c14_OUniverse"
 CONTOURS = List(Ref(CT))
 
+_OLDC = {}  # run-time side table: id(glyph) -> its contour objects before the call
 _OTHERS = {}  # run-time side table: id(glyph) -> the other glyphs of its font (ufoLib2 glyphs have slots and no back-reference)
 cls(CT, notes="a contour object (its points are never inspected by ufo2ft code here)")
 
@@ -63,15 +64,23 @@ def _glyph_iter(ex, st, self, node):
     return ex.iter_info(ex.read_field(st, self, "contours"), st, node)
 
 
-cls(OG, fields={"name": STR, "contours": CONTOURS, "components": List(INT)},
-    methods={"getPointPen": _get_pen, "getPen": _get_pen, "clearContours": _clear},
+def _append_contour(ex, st, self, args, kwargs, node):
+    cur = ex.read_field(st, self, "contours")
+    ex.write_field(st, self, "contours", Val(CONTOURS, z3.Concat(lift(cur), z3.Unit(lift(args[0])))), node)
+    return Val.const(None)
+
+
+_append_contour.modifies = [f"{OG}.contours"]
+
+cls(OG, fields={"name": STR, "contours": CONTOURS, "components": List(INT), "has_appendContour": BOOL},
+    methods={"getPointPen": _get_pen, "getPen": _get_pen, "clearContours": _clear, "appendContour": _append_contour},
+    has={"appendContour": "has_appendContour"},
     iter=_glyph_iter, length=lambda ex, st, self: Val(INT, z3.Length(lift(ex.read_field(st, self, "contours")))),
-    absent=("appendContour",),
     derived={"universe": lambda ex, st, self: Val(Set(Ref(OG)), z3.K(T.RefSort, z3.BoolVal(True)))},
-    views={"contours": lambda o: list(o.contours), "components": lambda o: [0] * len(o.components),
+    views={"contours": lambda o: list(o.contours), "components": lambda o: [0] * len(o.components), "has_appendContour": lambda o: hasattr(o, "appendContour"),
            "universe": lambda o: [__import__("pyvc.rt", fromlist=["Proxy"]).Proxy(x, CLASSES[OG]) for x in [o] + _OTHERS.get(id(o), [])]},
     notes="a ufoLib2 glyph as the contour filters see it: the list of contour objects, `len(glyph)` = number of contours, iteration = the contours, "
-    "getPointPen()/getPen() = a pen drawing into this glyph, clearContours(); no appendContour (ufoLib2)")
+    "getPointPen()/getPen() = a pen drawing into this glyph, clearContours(), appendContour(c) when the object has it (ufoLib2 and defcon do; `has_appendContour`)")
 cls(PEN, fields={"target": Ref(OG)}, notes="a (point) pen: everything drawn into it becomes a contour of its target glyph")
 
 
@@ -111,7 +120,7 @@ trusted("c14.union", "booleanOperations.union(contours, pen) draws the resulting
 _LOOP = {"for contour in contours": Loop(index="i", invariants={"pen": "pen.target == glyph", "frame": _FRAME})}
 
 
-def contour_filter(target, glob, loops=True, extra=None):
+def contour_filter(target, glob, loops=True, extra=None, loop_spec=None):
     contract(
         target,
         name="c14",
@@ -129,7 +138,7 @@ def contour_filter(target, glob, loops=True, extra=None):
         canaries={"always-true": "result", "contours-kept": "glyph.contours == old(glyph.contours)"},
         # F1 / F3 / F4: only the contours of THIS glyph are written (checked by the engine against the body)
         modifies=["glyph.contours"],
-        loops=_LOOP if loops else {},
+        loops=loop_spec if loop_spec is not None else (_LOOP if loops else {}),
         sorted_axioms=True,
         merge_branches=False,
     )
@@ -157,7 +166,9 @@ def _cbox(ex, st, args, kwargs, node):
 
 _GC = "glyph.contours"
 contour_filter(
-    "ufo2ft.filters.sortContours:SortContoursFilter.filter", {"_control_bounding_box": _ref("c14.control_bounding_box")}, loops=False,
+    "ufo2ft.filters.sortContours:SortContoursFilter.filter", {"_control_bounding_box": _ref("c14.control_bounding_box")},
+    loop_spec={"for contour in contours": Loop(index="i", seq="SC", invariants={
+        "len": "len(glyph.contours) == i", "rest": "glyph.contours + SC[i:] == SC", "frame": _FRAME})},
     extra={
         # the glyph keeps exactly its contour objects (a permutation) ...
         "same-contours": f"len({_GC}) == len(old({_GC})) and all((c in {_GC}) == (c in old({_GC})) for c in glyph.allcontours)",
@@ -166,7 +177,7 @@ contour_filter(
     },
 )
 CLASSES[OG].derived["allcontours"] = lambda ex, st, self: Val(Set(Ref(CT)), z3.K(T.RefSort, z3.BoolVal(True)))
-CLASSES[OG].views["allcontours"] = lambda o: list(o.contours) + list(getattr(o, "_c14_old_contours", []))
+CLASSES[OG].views["allcontours"] = lambda o: list(o.contours) + list(_OLDC.get(id(o), []))
 
 
 # ---- run-time side ---------------------------------------------------------------------------------------------------
@@ -207,6 +218,7 @@ def _glyph_build(filter_path):
         f = getattr(importlib.import_module(mod), qn)()
         f.set_context(font, {x.name: x for x in font})
         _OTHERS[id(g)] = [x for x in font if x is not g]
+        _OLDC[id(g)] = list(g.contours)
         return {"self": f, "glyph": g}
 
     return build
